@@ -100,9 +100,9 @@ func (s *Src) render(b *strings.Builder, ind string) {
 type DstKind int
 
 const (
-	DAcc DstKind = iota
-	DSeq         // { max M kd ... remaining kd }
-	DAllot       // { p kd ... }
+	DAcc   DstKind = iota
+	DSeq           // { max M kd ... remaining kd }
+	DAllot         // { p kd ... }
 )
 
 // KD is "kept" or "to <destination>".
@@ -367,9 +367,9 @@ func (p *Program) Text() string {
 // metadata of the store and initial balances.
 type Env struct {
 	Cat  Catalog
-	Vars map[string]string                // supplied values (only Origin=="" variables)
-	Meta map[string]map[string]string     // account -> key -> value
-	Bal  map[string]map[string]*big.Int   // account -> asset -> balance (absent = 0)
+	Vars map[string]string              // supplied values (only Origin=="" variables)
+	Meta map[string]map[string]string   // account -> key -> value
+	Bal  map[string]map[string]*big.Int // account -> asset -> balance (absent = 0)
 }
 
 func (e *Env) Balance(acc, asset string) *big.Int {
